@@ -88,9 +88,24 @@ pub fn known_match<'a>(known: &'a [Known], prop: &str, rule: &str, detail: &str)
 // worker
 // ------------------------------------------------------------------------------------------
 
-/// smtsim worker <prop> <base_seed> <start> <count> <fp_mask> <mode> <outfile>
-/// mode: "check" | "hash"
+// smtsim worker <prop> <base_seed> <start> <count> <fp_mask> <mode> <outfile>
+// mode: "check" | "hash"
+extern "C" {
+    fn setrlimit(resource: i32, rlim: *const [u64; 2]) -> i32;
+}
+
+/// cap the address space of a worker so that a runaway allocation aborts this process (and is
+/// reported with its seed) instead of exhausting the machine
+pub fn limit_memory(bytes: u64) {
+    const RLIMIT_AS: i32 = 9;
+    let lim = [bytes, bytes];
+    unsafe {
+        let _ = setrlimit(RLIMIT_AS, &lim);
+    }
+}
+
 pub fn cmd_worker(args: &[String]) -> i32 {
+    limit_memory(std::env::var("SMTSIM_WORKER_MEM").ok().and_then(|x| x.parse().ok()).unwrap_or(8 << 30));
     let prop = Prop::from_name(&args[0]).expect("prop");
     let base: u64 = args[1].parse().unwrap();
     let start: u64 = args[2].parse().unwrap();
@@ -499,8 +514,8 @@ pub fn cmd_check(prop: Prop, tier: &str) -> i32 {
     // batches whose worker died (stack overflow, abort): re-run them one run per process to find
     // the seed; a run that kills its process is reported as a harness error with the seed
     let crashed = std::mem::take(&mut agg.crashed);
-    let mut crash_seeds: Vec<u64> = Vec::new();
     for (start, count, why) in crashed.iter().take(2) {
+        let mut found = false;
         for i in *start..*start + *count {
             let outfile = root().join(format!("sim/target/tmp/single-{}-{}.bin", std::process::id(), i));
             let o = Command::new(&me)
@@ -517,11 +532,24 @@ pub fn cmd_check(prop: Prop, tier: &str) -> i32 {
             let _ = std::fs::remove_file(&outfile);
             let ok = o.as_ref().map(|o| String::from_utf8_lossy(&o.stdout).contains("DONE\t")).unwrap_or(false);
             if !ok {
-                crash_seeds.push(run_seed(base, prop, i));
+                found = true;
+                let seed = run_seed(base, prop, i);
+                match crash_probe(&me, prop, seed) {
+                    Some((p, path, steps, detail)) => {
+                        if p == prop.name() {
+                            agg.viols.push((p, "call-kills-process".into(), seed.to_string(), path, steps.to_string(), detail));
+                        } else {
+                            agg.notes.push(format!("run seed {seed} kills its process in a call owned by {p}: {detail}"));
+                        }
+                    }
+                    None => agg.harness.push(format!("the run with seed {seed} kills its worker process but the crash probe did not reproduce it ({why})")),
+                }
                 break;
             }
         }
-        agg.harness.push(format!("worker process died in batch start={start} count={count}: {why}"));
+        if !found {
+            agg.harness.push(format!("worker process died in batch start={start} count={count} but no single run reproduces it: {why}"));
+        }
     }
 
     let runs_done = *agg.stats.get("runs").unwrap_or(&0);
@@ -544,9 +572,6 @@ pub fn cmd_check(prop: Prop, tier: &str) -> i32 {
     if !agg.harness.is_empty() {
         for h in agg.harness.iter().take(5) {
             println!("HARNESS-ERROR: {}", h);
-        }
-        for sd in &crash_seeds {
-            println!("HARNESS-ERROR: the run with seed {} kills its worker process (`smtsim one {} {}`)", sd, prop.name(), sd);
         }
         if code == 0 {
             code = 2;
@@ -666,6 +691,77 @@ pub fn cmd_check(prop: Prop, tier: &str) -> i32 {
 }
 
 // ------------------------------------------------------------------------------------------
+// process-killing runs (stack overflow, abort on allocation failure)
+// ------------------------------------------------------------------------------------------
+
+fn died(status: &std::process::ExitStatus) -> bool {
+    use std::os::unix::process::ExitStatusExt;
+    status.signal().is_some() || !matches!(status.code(), Some(0) | Some(1) | Some(2))
+}
+
+/// Re-run one seed in a child that records its progress; returns (property, replay path, steps, detail)
+fn crash_probe(me: &Path, prop: Prop, seed: u64) -> Option<(String, String, usize, String)> {
+    let pf = root().join(format!("sim/target/tmp/progress-{}-{}", std::process::id(), seed));
+    let _ = std::fs::remove_file(&pf);
+    let st = Command::new(me)
+        .arg("crashprobe")
+        .arg(prop.name())
+        .arg(seed.to_string())
+        .arg(&pf)
+        .env("SMTSIM_ROOT", root())
+        .stdout(Stdio::null())
+        .stderr(Stdio::null())
+        .status()
+        .ok()?;
+    if !died(&st) {
+        let _ = std::fs::remove_file(&pf);
+        return None;
+    }
+    let text = std::fs::read_to_string(&pf).ok()?;
+    let _ = std::fs::remove_file(&pf);
+    let mut it = text.split_whitespace();
+    let step: usize = it.next()?.parse().ok()?;
+    let op = it.next()?.to_string();
+    let owner = crate::runner::owner_of_op(&op, prop.bit());
+    let mut tr = gen::generate(seed, prop);
+    tr.steps.truncate(step + 1);
+    let detail = format!("{} at step {} kills the process ({:?}): stack overflow or allocation failure inside the crate", op, step, st);
+    let rp = Replay {
+        prop: owner,
+        rule: "call-kills-process".into(),
+        step,
+        detail: detail.clone(),
+        original_steps: step + 1,
+        trace: tr.clone(),
+    };
+    let dir = root().join("replays");
+    let _ = std::fs::create_dir_all(&dir);
+    let path = dir.join(format!("{}-{}.replay", owner.name(), seed));
+    std::fs::write(&path, rp.to_text()).ok()?;
+    Some((owner.name().to_string(), path.display().to_string(), tr.steps.len(), detail))
+}
+
+pub fn cmd_crashprobe(prop: Prop, seed: u64, pf: &str) -> i32 {
+    limit_memory(8 << 30);
+    let _ = crate::exec::PROGRESS_FILE.set(pf.to_string());
+    let tr = gen::generate(seed, prop);
+    let _ = check_trace(&tr, prop.bit(), false);
+    0
+}
+
+pub fn cmd_exec_trace(path: &str) -> i32 {
+    limit_memory(8 << 30);
+    let text = std::fs::read_to_string(path).unwrap_or_default();
+    match Replay::from_text(&text) {
+        Ok(rp) => {
+            let _ = check_trace(&rp.trace, rp.prop.bit(), false);
+            0
+        }
+        Err(_) => 2,
+    }
+}
+
+// ------------------------------------------------------------------------------------------
 // replay
 // ------------------------------------------------------------------------------------------
 
@@ -684,6 +780,22 @@ pub fn cmd_replay(path: &str) -> i32 {
             return 2;
         }
     };
+    if rp.rule == "call-kills-process" {
+        // must be observed from outside: run the trace in a child process
+        let me = std::env::current_exe().expect("exe");
+        let st = Command::new(&me).arg("exec-trace").arg(path).stdout(Stdio::null()).stderr(Stdio::null()).status();
+        return match st {
+            Ok(st) if died(&st) => {
+                println!("rule={} step={} the child process died: {:?}", rp.rule, rp.step, st);
+                println!("VIOLATION property={} replay={}", rp.prop.name(), path);
+                1
+            }
+            other => {
+                println!("HARNESS-ERROR: the replay did not reproduce (child: {:?})", other);
+                2
+            }
+        };
+    }
     let c = check_trace(&rp.trace, rp.prop.bit(), true);
     for l in &c.out.log {
         println!("{l}");
